@@ -29,6 +29,16 @@ func VerifH3SConsts() [][2]any {
 		{"h3SettingExtendedConnect", int64(settingExtendedConnect)},
 		{"h3SettingDatagram", int64(settingDatagram)},
 		{"h3FrameHeaderLen", int64(frameHeaderLen)},
+		{"h3ErrCodeNoError", int64(ErrCodeNoError)},
+		{"h3ErrCodeStreamCreationError", int64(ErrCodeStreamCreationError)},
+		{"h3ErrCodeClosedCriticalStream", int64(ErrCodeClosedCriticalStream)},
+		{"h3ErrCodeIDError", int64(ErrCodeIDError)},
+		{"h3ErrCodeMissingSettings", int64(ErrCodeMissingSettings)},
+		{"h3ErrCodeSettingsError", int64(ErrCodeSettingsError)},
+		{"h3StreamTypeControl", int64(streamTypeControlStream)},
+		{"h3StreamTypePush", int64(streamTypePushStream)},
+		{"h3StreamTypeQPACKEncoder", int64(streamTypeQPACKEncoderStream)},
+		{"h3StreamTypeQPACKDecoder", int64(streamTypeQPACKDecoderStream)},
 	}
 }
 
